@@ -85,6 +85,15 @@ def check_shapes(run, states, ex, jnp, tier):
                     if oc != "ValueError":
                         run.violation(dict(key, what="malformed state not rejected with ValueError"),
                                       {"shape": list(shape), "outcome": oc, "out_shape": None if out is None else list(out.shape)})
+                    # the decision is taken on the shape, which is known while tracing: the same call under jit and from inside a scan
+                    if (hash(name) + D + N) % 3 == 0 or tier != "quick":
+                        import jax as _jax
+                        for how, fn in (("jit", lambda: _jax.jit(lambda v: obj(v))(jnp.zeros(shape))),
+                                        ("rollout", lambda: ex.rollout(obj, 2)(jnp.zeros(shape)))):
+                            oc2, out2 = outcome_of(fn)
+                            if oc2 != "ValueError":
+                                run.violation(dict(key, what=f"malformed state not rejected with ValueError under {how}"),
+                                              {"shape": list(shape), "outcome": oc2, "out_shape": None if out2 is None else list(out2.shape)})
                 if nsamp < 4 and st["mutation"] != "none":
                     run.sample({"target": kind, "cls": name, "D": D, "N": N, "expected_shape": [C] + [N] * D, "mutation": st["mutation"],
                                 "shape": list(shape), "spec_decision": want, "outcome": oc})
@@ -99,7 +108,12 @@ def exec_row(r, ex, jnp):
     if t == "class_dim":
         name, D = r[1], r[2]
         if name in registry.stepper_classes():
-            return outcome_of(lambda: registry.make(name, D, 8, L=1.0, dt=0.01))[0]
+            # the decision does not depend on the order of the time integrator (0 = linear part only ... 4): every order must give the same outcome
+            cls_ = registry.stepper_classes()[name]
+            outs = [outcome_of(lambda: registry.make(name, D, 8, L=1.0, dt=0.01))[0]]
+            if registry.has_order(cls_):
+                outs += [outcome_of(lambda o=o: registry.make(name, D, 8, L=1.0, dt=0.01, order=o))[0] for o in (0, 1, 4)]
+            return outs[0] if len(set(outs)) == 1 else "order-dependent: " + "/".join(outs)
         if name == "RandomSineWaves1d":
             return outcome_of(lambda: ex.ic.RandomSineWaves1d(D))[0]
         cls = getattr(ex.nonlin_fun, name)
